@@ -92,7 +92,8 @@ def balanced_outward(source: str, pos: int) -> list:
                 push(result, (left[0], end))
             if left:
                 release_range(pool, left)
-            if not stack:
+            if not stack and end > pos:
+                # Closed a top-level section at or after `pos`: nothing further can match
                 return False
         elif token_type == TokenType.PropertyName:
             if prop[0]:
